@@ -303,7 +303,10 @@ def fromSegs : List Seg → Nat → Nat → List Msg
 
 /-- get_messages_by_offset. `count = 0` is rejected by System::poll_messages. -/
 def Part.getByOffset (p : Part) (off count : Nat) : List Msg :=
-  if p.segs.isEmpty ∨ p.cur < off then [] else
+  if p.segs.isEmpty then [] else
+  -- below the first segment everything was removed by retention: start at the earliest (fix in /repo)
+  let off := max off ((p.segs.head?.map (·.start)).getD 0)
+  if p.cur < off then [] else
   let hi := p.endOffset off count
   match p.tryCache off hi with
   | some ms => ms
